@@ -450,10 +450,7 @@ impl<'p> Interp<'p> {
                 self.hit(Cov::TupleArith);
                 let mut out = Vec::with_capacity(x.len());
                 for (p, q) in x.iter().zip(y.iter()) {
-                    if matches!((p, q), (Val::Str(_), Val::Str(_))) {
-                        // the runtime uses the raw Lua operator on elements: strings are not concatenated
-                        return Err("string elements in tuple arithmetic".into());
-                    }
+                    // `+` concatenates string elements (as on plain strings); other operators reject them below
                     out.push(self.arith(op, p, q)?);
                 }
                 Ok(Val::Tuple(Rc::new(out)))
